@@ -22,7 +22,7 @@ PROP = "C14"
 def model(ldir):
     env = {"WOWM_OBJECTS": ldir + "/objects.ndjson", "WOWM_BLOCKS": ldir + "/blocks.ndjson",
            "WOWM_INDEX": ldir + "/index.json", "WOWM_NSHARDS": 1, "WOWM_SHARD": 0, "WOWM_NPROF": 1,
-           "WOWM_MAXLEN": 2, "WOWM_ONLY": "", "WOWM_DEEP": "0", "WOWM_FAULTS": "0", "WOWM_FAULT_EVERY": 1,
+           "WOWM_MAXLEN": 2, "WOWM_ONLY": "", "WOWM_DEEP": "0", "WOWM_FAULTS": "0", "WOWM_FAULT_EVERY": 1, "WOWM_FAULT_PHASE": 0,
            "WOWM_CONST": wire.EMPTY_LIST}
     res = C.run_tlc("Collective", workers=1, timeout=600, env=env, name="c14-collective", coverage=False,
                     allow_violation=True)
